@@ -23,7 +23,7 @@ FULL = {"open": True, "copy": True, "deep": True, "pickle": True, "doc": True, "
         "decoys": ("bak", "hex31", "hex33", "tmp")}
 # closed sub-universe explored deeper: 2 state points, 1 file, 1 doc key, 2 slots per job
 CLOSED = {"open": True, "copy": True, "deep": False, "pickle": False, "doc": True, "files": True, "files2": False,
-          "rekey": True, "move": True, "reopen": False, "cache": False, "newproject": False, "decoys": (),
+          "rekey": True, "move": True, "reopen": True, "cache": False, "newproject": False, "decoys": (),
           "assign_typed": False}
 
 
